@@ -28,7 +28,7 @@ from . import common as C
 PROP = "C15"
 MODEL = "Schedule"
 SHARD = 150
-CASE_TIMEOUT = 60
+CASE_TIMEOUT = 30
 RULE = ("cases: (direct) CalendarRule(**kw) with recording stand-ins for rrule/rruleset, every keyword "
         "present/absent, well-typed and malformed values, nested rules; compared: engine-call tree, values of "
         "next(), exception class; (recipe) Schedule.Event through generate_data with count / for_each, start dates "
